@@ -1,5 +1,6 @@
 import BoltonsVerif.C03.Proofs
 import BoltonsVerif.Generated.C03_CacheLocks
+import BoltonsVerif.C02.Proofs
 /-
 C03 — property theorems: lock-protected operations are atomic under EVERY
 interleaving of micro-steps (every schedule), whatever the decomposition of a
@@ -117,6 +118,62 @@ theorem no_inherited_mutators : Generated.C03.inheritedMutators = [] := by
 theorem lock_table_nonvacuous :
     6 ≤ (Generated.C03.methods.filter (fun m => m.touches)).length := by
   decide
+
+/-! ### The LRI/LRU instance
+
+`body` is ANY decomposition of the cache methods into atomic micro-steps (the real
+bytecode-level one included) whose sequential meaning is the C02 model's `step`.
+Then every quiescent state reached by any number of threads under any schedule is
+a state of a sequential C02 history, so it satisfies the whole C02 invariant: dict,
+lookup table and ring in step (no dangling or duplicate link — the cache stays
+usable), `len ≤ max_size`, `soft_miss_count ≤ miss_count`. -/
+
+section CacheInstance
+variable {K V : Type} [DecidableEq K] [DecidableEq V]
+
+abbrev CacheOut (K V : Type) := C02.Out K V (C02.Cache K V)
+
+def cacheSys (body : C02.Op K V → Prog (C02.Cache K V) (CacheOut K V)) :
+    Sys (C02.Cache K V) (C02.Op K V) (CacheOut K V) := { body := body, protect := fun _ => true }
+
+theorem serialState_eq_run (body : C02.Op K V → Prog (C02.Cache K V) (CacheOut K V))
+    (hbody : ∀ o s, runProg (body o) s = C02.step s o) (s0 : C02.Cache K V) (log : List (Tid × C02.Op K V)) :
+    serialState (cacheSys body) s0 log = C02.run s0 (log.map (·.2)) := by
+  induction log generalizing s0 with
+  | nil => simp [serialState, C02.run]
+  | cons e es ih =>
+    have h1 : serialState (cacheSys body) s0 (e :: es) =
+        serialState (cacheSys body) (runProg (body e.2) s0).1 es := by simp [serialState, cacheSys]
+    rw [h1, ih, hbody]; simp [C02.run]
+
+theorem run_inv (s0 : C02.Cache K V) (h : C02.Inv s0) (ops : List (C02.Op K V)) : C02.Inv (C02.run s0 ops) := by
+  induction ops generalizing s0 with
+  | nil => simpa [C02.run] using h
+  | cons o os ih =>
+    have := ih (C02.step s0 o).1 (C02.step_inv h o)
+    simpa [C02.run] using this
+
+/-- every quiescent state of every concurrent execution is the state of a sequential
+    history (in lock-acquisition order) and satisfies the C02 invariant: never more than
+    `max_size` items, ring / lookup table / dict consistent -/
+theorem cache_quiescent_state (body : C02.Op K V → Prog (C02.Cache K V) (CacheOut K V))
+    (hbody : ∀ o s, runProg (body o) s = C02.step s o) (hwn : ∀ o, WN 0 (body o))
+    (lru : Bool) (max : Nat) (hmax : 1 ≤ max) (om : Option (K → V))
+    (progs : List (List (C02.Op K V))) (sch : List Tid) (c : Cfg (C02.Cache K V) (C02.Op K V) (CacheOut K V))
+    (hexec : (Cfg.init (C02.Cache.init lru max om) progs).exec (cacheSys body) sch = some c)
+    (hdone : c.complete = true) :
+    ∃ log : List (Tid × C02.Op K V),
+      (∀ i p, progs[i]? = some p → opsOf i log = p) ∧
+      c.shared = C02.run (C02.Cache.init lru max om) (log.map (·.2)) ∧
+      C02.Inv c.shared ∧ c.shared.d.length ≤ c.shared.max := by
+  obtain ⟨log, hprog, hsh, _, _⟩ :=
+    serializable (cacheSys body) (C02.Cache.init lru max om) progs (fun _ => rfl) hwn sch c hexec hdone
+  have heq := serialState_eq_run body hbody (C02.Cache.init lru max om) log
+  have hinv : C02.Inv c.shared := by
+    rw [hsh, heq]; exact run_inv _ (C02.Inv.init lru max om hmax) _
+  exact ⟨log, hprog, by rw [hsh, heq], hinv, hinv.cap⟩
+
+end CacheInstance
 
 /-! Necessity of the hypothesis: with an UNPROTECTED insert two threads can both
     see "not full" and both insert, exceeding the capacity. -/
